@@ -56,7 +56,8 @@ PROPS = {
     },
     'C03': {
         'contract_modules': ['scheduler_core', 'scheduler_cell'],
-        'functions': SCHED_CORE + SCHED_CELL + [S + 'Cell.add_app'],
+        'functions': SCHED_CORE + SCHED_CELL + [S + 'Cell.add_app', S + 'Node.add_labels', S + 'TraitSet._recalculate',
+                                                S + 'Node.add_node'],
         'replay': 'scheduler.py',
         'assumptions': SCHED_ASSUME + [
             'lease clause is proved against the clock value at the start of the placing call (a lower bound of the '
@@ -77,6 +78,23 @@ PROPS = {
             'history closure: Cell.schedule assumes the between-cycles identity invariant (ident_between); it is '
             'proved to be preserved by add_app, remove_app, configure_identity_group, remove_identity_group and by '
             'the cycle itself; Loader.restore_placement/force_set_identity (master start-up) are not yet under contract',
+        ],
+    },
+    'C08': {
+        'contract_modules': ['scheduler_core', 'scheduler_cell'],
+        'functions': SCHED_CORE + SCHED_CELL,
+        'replay': 'scheduler.py',
+        'assumptions': SCHED_ASSUME + [
+            'proved per pass of the cycle (each pass has the clause as its own postcondition): inactive-server pass '
+            'removes an instance only from a down server whose since + retention <= clock (or retention None) or a '
+            'frozen server when marked unschedule; blacklist pass only blacklisted ones; placement walk never takes '
+            'an instance off a non-up server unless over its utilisation cap and assigns only to up servers; '
+            'blacklisted => unplaced is a postcondition of Cell.schedule. The composition of the per-pass clauses '
+            'into one end-of-cycle statement relative to the cycle-start state is not machine-checked',
+            '"loses it in the first cycle after that" (removal once expired) is not stated as an obligation: only '
+            'the safety direction (not removed early, never evicted meanwhile) is',
+            'Server.set_state (down/up/frozen transitions, since recorded only on a real change) is under contract; '
+            'the loader/master handlers that call it are not',
         ],
     },
     'C19': {
